@@ -10,40 +10,38 @@ Abstraction function: `BufMap.abs` (expand the run list to per-byte colours; rel
 namespace GmQuic.BufMap
 open GmQuic.SendSpec
 
-/-- **Refinement, histories without loss reports — unconditional.**  `ack_rcvd`, `shift`, `pick` (and `extend_to`,
-`resend_flighting`, `forget`) are proved to refine the spec (`Lemmas/BufMapAck.lean`, `Lemmas/BufMapPick.lean`): every
-run of the transliterated `SendBuf` from `with_capacity(cap)` whose operations are in their domain and that contains
-no `may_loss_data` is a trace of the specification, and the final states correspond (`resend_flighting`, the other
-source of `Lost` bytes, is included). -/
-theorem refines_spec_without_loss (cap : Nat) (tr : List (SendOp × SendObs)) (b : SendBuf)
-    (h : XRun (SendBuf.withCapacity cap) tr b) (hnl : ¬ HasLose tr) :
-    ∃ s, Trace.Ok (SendSpec.init cap) tr s ∧ Rel b s :=
-  run_refines ackRefines shiftRefines pickRefines _ _ (rel_init cap) tr b h (fun hl => absurd hl hnl)
-
-/-- **Refinement, all histories — partial.**  The missing case is named: `LossRefines`, i.e. "`BufMap::may_loss`
-(with `may_lost_from`) recolours exactly the `Flighting` bytes of the range to `Lost` and keeps the map well-formed"
-(a closed statement about one transliterated function; `Lemmas/BufMapLoss.lean` proves it for the recursive helper
-`may_lost_from` and hence for ranges that start in acknowledged territory, the remaining branches are
-correspondence-tested only).  Under it every run of the transliteration is a trace of the specification. -/
-theorem refines_spec_partial (hL : LossRefines)
-    (cap : Nat) (tr : List (SendOp × SendObs)) (b : SendBuf)
+/-- **Refinement, all histories.**  Every run of the transliterated `SendBuf` from `with_capacity(cap)` whose
+operations are in their domain (`DomX`: ack/loss ranges non-empty, inside the coloured prefix, without `Pending` byte;
+`extend` never shrinks; predicate allowance positive; `forget` only while `offset = 0`; offsets < 2^62) is a trace of
+the specification — with the very answers the transliteration gave — and the final states correspond.  All four
+index-juggling routines are discharged (`Lemmas/BufMapAck.lean`: `ack_rcvd`, `shift`; `Lemmas/BufMapPick.lean`: `pick`;
+`Lemmas/BufMapLoss.lean`: `may_loss` with the recursive `may_lost_from`).  Hence every theorem of `Props/C09/Spec.lean`
+holds of the states and answers of the transliterated algorithm. -/
+theorem refines_spec (cap : Nat) (tr : List (SendOp × SendObs)) (b : SendBuf)
     (h : XRun (SendBuf.withCapacity cap) tr b) :
     ∃ s, Trace.Ok (SendSpec.init cap) tr s ∧ Rel b s :=
-  run_refines ackRefines shiftRefines pickRefines _ _ (rel_init cap) tr b h (fun _ => hL)
+  run_refines ackRefines shiftRefines pickRefines _ _ (rel_init cap) tr b h (fun _ => lossRefines)
 
-/-- No operation other than `may_loss_data` panics inside its domain (no `debug_assert`, no `unwrap`, no out-of-bounds
-`insert`/`drain`, no `u64` overflow), and its answer is a legal specification step — in particular every answer of
-`pick_up` satisfies `pickOk`. -/
-theorem step_no_panic (b : SendBuf) (s : SendSpec) (hR : Rel b s) (op : SendOp)
-    (hnl : ∀ a e, op ≠ .lose a e) (hd : DomX b op) :
+/-- **No panic.**  No public operation panics inside its domain (no `debug_assert`, no `unwrap` of a missing run, no
+out-of-bounds `insert`/`drain`, no `u64` overflow in `start + allowance`, no fuel exhaustion of the recursion), and its
+answer is a legal specification step — in particular every answer of `pick_up` satisfies `pickOk`. -/
+theorem step_no_panic (b : SendBuf) (s : SendSpec) (hR : Rel b s) (op : SendOp) (hd : DomX b op) :
     ∃ b' obs s', xstep b op = .ok (b', obs) ∧ stepOk s op obs s' ∧ Rel b' s' :=
-  step_refines ackRefines shiftRefines pickRefines b s hR op (fun ⟨a, e, q⟩ => absurd q (hnl a e)) hd
+  step_refines ackRefines shiftRefines pickRefines b s hR op (fun _ => lossRefines) hd
 
-/-- the same for `may_loss_data`, under the named hypothesis -/
-theorem step_no_panic_partial (hL : LossRefines)
-    (b : SendBuf) (s : SendSpec) (hR : Rel b s) (op : SendOp) (hd : DomX b op) :
-    ∃ b' obs s', xstep b op = .ok (b', obs) ∧ stepOk s op obs s' ∧ Rel b' s' :=
-  step_refines ackRefines shiftRefines pickRefines b s hR op (fun _ => hL) hd
+/-- the run can always be continued: after any run, any operation in its domain succeeds -/
+theorem run_no_panic (cap : Nat) (tr : List (SendOp × SendObs)) (b : SendBuf)
+    (h : XRun (SendBuf.withCapacity cap) tr b) (op : SendOp) (hd : DomX b op) :
+    ∃ b' obs, xstep b op = .ok (b', obs) := by
+  obtain ⟨s, _, hR⟩ := refines_spec cap tr b h
+  obtain ⟨b', obs, _, hx, _, _⟩ := step_no_panic b s hR op hd
+  exact ⟨b', obs, hx⟩
+
+/-- `may_loss_data` refines `lose`. -/
+theorem may_loss_data_refines (b : SendBuf) (s : SendSpec) (hR : Rel b s) (a e : Nat)
+    (hd : a < e ∧ e ≤ b.state.size ∧ ∀ x, a ≤ x → x < e → b.state.abs x ≠ .pending) :
+    ∃ b', b.mayLossData a e = .ok b' ∧ Rel b' (s.lose a e) :=
+  lose_refines lossRefines b s hR a e hd
 
 /-- `on_data_acked` refines `ack` (index juggling of `ack_rcvd`, `shift`, the chunk-queue loop). -/
 theorem on_data_acked_refines (b : SendBuf) (s : SendSpec) (hR : Rel b s) (a e : Nat)
@@ -70,7 +68,7 @@ theorem write_extend_resend_forget_refine (b : SendBuf) (s : SendSpec) (hR : Rel
 theorem isAllRcvd_refines (b : SendBuf) (s : SendSpec) (hR : Rel b s) : b.isAllRcvd = true ↔ s.allRcvd :=
   isAllRcvd_iff b s hR
 
--- non-vacuity: a run of the transliteration (write 6, pick 4 of them) exists and is in the domain
+-- non-vacuity (for `refines_spec`, `run_no_panic`): a run of the transliteration (write 6, pick 4 of them) exists and is in the domain
 example : XRun (SendBuf.withCapacity 10)
     ([] ++ [(.write [1, 2, 3, 4, 5, 6], .unit)] ++ [(.pick (fun _ => some 4) 100, .range 0 4 true)])
     { offset := 0, chunks := [6], maxData := 10, state := { runs := [(0, .flighting), (4, .pending)], size := 6 } } := by
